@@ -25,6 +25,7 @@ THEOREMS = ["SleapVerif.C05." + t for t in [
     "paf_kept_partial", "paf_border_strip_counterexample",
     "paf_additive", "paf_single", "paf_empty", "paf_layout", "paf_shape",
     "paf_weight_antitone_capstone", "paf_output_on_segment", "paf_output_additive",
+    "paf_passes_independent",
 ]]
 
 EPS32 = 2.0 ** -23
@@ -176,6 +177,8 @@ def gen_case(rng, kind=None, pin=None, modes=None):
             "edges": gen_edges(rng, n_nodes), "animals": animals}
     if kind in ("pafs", "pafs_noflat") and rng.random() < 0.15:
         case["extra_sample"] = [gen_animal(rng, H, W, stride, n_nodes, "inside") for _ in range(n_inst)]
+    if kind in ("dp", "dp_noflat") and rng.random() < 0.8:
+        case["history"] = {"passes": rng.choice([2, 2, 3]), "interleave": rng.random() < 0.35}
     if kind in OUT_KINDS and case["edges"] and rng.random() < 0.5:
         case["float_edge_inds"] = True       # production call style: torch.Tensor(list) -> float32 indices
     return case
@@ -239,6 +242,7 @@ def run_impl_raw(case, animals=None):
                  torch.tensor(es[:, 2:], dtype=torch.float32))
         return r if r[0] == "raise" else ("ok", r[1], r[1].numpy().reshape(-1, es.shape[0]).copy())
     H, W, s, sg = case["H"], case["W"], case["stride"], case["sigma"]
+    animals_given = animals
     animals = case["animals"] if animals is None else animals
     N, E = case["n_nodes"], len(case["edges"])
     inst = torch.tensor(nan_arr(animals, (len(animals), N, 2)), dtype=torch.float32)
@@ -272,9 +276,52 @@ def run_impl_raw(case, animals=None):
         flat = kind in ("pafs", "dp")
         kw = {} if case.get("defaults") else {"sigma": sg, "output_stride": s}
         if kind in ("dp", "dp_noflat"):
+            # a HISTORY over one generator object: several passes (fresh iter() each, one per epoch), optionally the
+            # second started while the first is suspended; every pass must be bit-identical to the first (which is the
+            # one compared with the stateless model / the oracle) and the public attributes must stay unchanged
             ex = {"image": torch.zeros((1, 1, H, W)), "instances": instances[:1]}
-            dp = em.PartAffinityFieldsGenerator([ex], **kw, edge_inds=edge_inds, flatten_channels=flat)
-            r = call(lambda: list(dp)[0]["part_affinity_fields"])
+            r0 = call(lambda: em.PartAffinityFieldsGenerator([ex], **kw, edge_inds=edge_inds, flatten_channels=flat))
+            if r0[0] == "raise":
+                return r0
+            dp = r0[1]
+            hist = (case.get("history") if animals_given is None else None) or {"passes": 1, "interleave": False}
+
+            def attrs():
+                return {k: (getattr(dp, k).clone() if torch.is_tensor(getattr(dp, k)) else getattr(dp, k))
+                        for k in ("sigma", "output_stride", "flatten_channels", "edge_inds") if hasattr(dp, k)}
+
+            def attrs_same(a0, a1):
+                return all((torch.equal(a0[k], a1[k]) if torch.is_tensor(a0[k]) and torch.is_tensor(a1[k]) else a0[k] == a1[k])
+                           for k in a0)
+            a0 = attrs()
+
+            def passes():
+                outs = []
+                start = 0
+                if hist.get("interleave") and hist["passes"] >= 2:
+                    it1 = iter(dp)
+                    outs.append(("pass 1 (suspended after its example)", next(it1)["part_affinity_fields"].clone()))
+                    outs.append(("pass 2 (started while pass 1 was suspended)", list(iter(dp))[0]["part_affinity_fields"].clone()))
+                    start = 2
+                for n in range(start, hist["passes"]):
+                    outs.append((f"pass {n + 1}", list(iter(dp))[0]["part_affinity_fields"].clone()))
+                    if not attrs_same(a0, attrs()):
+                        return ("state", f"after pass {n + 1}", outs)
+                return ("ok", None, outs)
+            rp = call(passes)
+            if rp[0] == "raise":
+                return rp
+            status, where_, outs = rp[1]
+            for label, o in outs[1:]:
+                if not same(o, outs[0][1]):
+                    dmax = float((o - outs[0][1]).abs().max()) if o.shape == outs[0][1].shape else float("nan")
+                    return ("raise", "HistoryDependent",
+                            f"{label} over the same PartAffinityFieldsGenerator object differs from {outs[0][0]} "
+                            f"(max |Δ| {dmax}): the generator keeps state between passes")
+            if status == "state" or not attrs_same(a0, attrs()):
+                return ("raise", "StateMutated", f"public attributes of the generator object changed {where_ or ''}: "
+                        f"{ {k: (a0[k], attrs()[k]) for k in a0 if not attrs_same({k: a0[k]}, {k: attrs()[k]})} }")
+            r = ("ok", outs[0][1])
         else:
             r = call(em.generate_pafs, instances, (H, W), **kw, edge_inds=edge_inds, flatten_channels=flat)
         if r[0] == "ok":
@@ -501,6 +548,8 @@ def impl_and_oracle(case):
     must not be modified by a later call)."""
     r = run_impl_raw(case)
     if r[0] == "raise":
+        if r[1] in ("HistoryDependent", "StateMutated"):
+            return r, [(r[2], [])], []
         return r, [(f"implementation raised {r[1]}: {r[2]}", [])], []
     raw, snap = r[1], r[1].clone()
     singles = []
@@ -521,7 +570,8 @@ def unsigned(fails):
 
 def case_size(case):
     pts = [p for a in case["animals"] for p in a]
-    return (len(case["animals"]), len(case["edges"]), case["H"] + case["W"], case["stride"],
+    hh = case.get("history") or {}
+    return (hh.get("passes", 1) + (1 if hh.get("interleave") else 0), len(case["animals"]), len(case["edges"]), case["H"] + case["W"], case["stride"],
             0 if case["sigma"] == 1.0 else 1, sum(1 for p in pts for v in p if v is not None and v != round(v)))
 
 
@@ -538,6 +588,11 @@ def shrink(case):
     while changed:
         changed = False
         cands = []
+        if cur.get("history"):
+            if cur["history"].get("interleave"):
+                c = copy.deepcopy(cur); c["history"]["interleave"] = False; cands.append(c)
+            if cur["history"]["passes"] > 1:
+                c = copy.deepcopy(cur); c["history"]["passes"] -= 1; cands.append(c)
         for k in range(len(cur["animals"])):
             c = copy.deepcopy(cur); del c["animals"][k]; cands.append(c)
         for k in range(len(cur["edges"])):
@@ -571,6 +626,8 @@ def tags_of(case):
         t.append("large_frame")
     if case.get("float_edge_inds"):
         t.append("float32_edge_inds")
+    if case.get("history"):
+        t.append(f"dp_history_{case['history']['passes']}_passes" + ("_interleaved" if case["history"].get("interleave") else ""))
     if case["sigma"] not in (0.5, 1.0, 1.5, 2.5, 5.0):
         t.append("continuous_sigma")
     for a in case["animals"]:
@@ -695,8 +752,10 @@ def main(chk: Check):
          "animals": [[[3.0, 3.0], [3.0, 3.0]], [[1.0, 1.0], [4.0, 5.0]]]},
         {"kind": "dp", "H": 8, "W": 8, "stride": 2, "sigma": 1.0, "n_nodes": 2, "edges": [[0, 1]],
          "animals": [[[1.0, 1.0], [5.0, 1.0]], [[5.0, 5.0], [1.0, 5.0]]]},
+        {"kind": "dp", "H": 16, "W": 16, "stride": 4, "sigma": 1.5, "n_nodes": 2, "edges": [[0, 1]],
+         "history": {"passes": 3, "interleave": True}, "animals": [[[2.0, 3.0], [10.0, 9.0]]]},
         {"kind": "dp_noflat", "H": 8, "W": 8, "stride": 2, "sigma": 1.0, "n_nodes": 2, "edges": [[0, 1]],
-         "float_edge_inds": True, "animals": [[[1.0, 1.0], [5.0, 1.0]], [[5.0, 5.0], [1.0, 5.0]]]},
+         "history": {"passes": 3, "interleave": False}, "float_edge_inds": True, "animals": [[[1.0, 1.0], [5.0, 1.0]], [[5.0, 5.0], [1.0, 5.0]]]},
         {"kind": "pafs", "H": 8, "W": 8, "stride": 2, "sigma": 1.0, "n_nodes": 2, "edges": [], "animals": [[[1.0, 1.0], [5.0, 1.0]]]},
         {"kind": "pafs", "H": 8, "W": 8, "stride": 2, "sigma": 1.0, "n_nodes": 2, "edges": [[0, 1]], "animals": []},
         # real-data regime: 2048 px frame, long edge in the far corner, grid point on the segment
@@ -773,7 +832,9 @@ if __name__ == "__main__":
             "torch indexing/broadcast/meshgrid/permute semantics (validated by the correspondence)",
         ],
         rule="entry points distance_to_edge, make_pafs, make_multi_pafs, generate_pafs (flattened / not), "
-             "PartAffinityFieldsGenerator (flattened / not); edge_inds as int64 tensor or, as production does, torch.Tensor(list) "
+             "PartAffinityFieldsGenerator (flattened / not; as HISTORIES over one generator object: 1-3 passes with a fresh iter() each, "
+             "35% with pass 2 started while pass 1 is suspended; every pass must be bit-identical to the first, which is compared with the "
+             "stateless model, and sigma/output_stride/edge_inds/flatten_channels must stay unchanged); edge_inds as int64 tensor or, as production does, torch.Tensor(list) "
              "(float32); 0-4 animals x 1-5 nodes on the k/16 lattice in modes inside / integer / wholly outside / partly outside / "
              "last-stride strip and x=0,y=0 lines / sub-pixel edges / coincident nodes, NaN patterns (node, one coordinate, whole "
              "animal); edge lists chain / random / repeated+reversed / self-edge / empty; H,W in 1..36 (50% stride multiples), "
